@@ -389,7 +389,9 @@ var evalGens = []evalGen{
 		return nestText("(handler-bind ((condition (lambda (c &rest a) (rethrow)))) ", ")", "(error 'x)", d)
 	}},
 	{"macro-nest", func(d int) string { return preNest + fmt.Sprintf(" (c03-nest %d)", d) }},
-	{"macro-loop", func(d int) string { return fmt.Sprintf("(defmacro m (n) (quasiquote (m (unquote (+ n 1))))) (m %d)", d) }},
+	{"macro-loop", func(d int) string {
+		return fmt.Sprintf("(defmacro m (n) (quasiquote (m (unquote (+ n 1))))) (m %d)", d)
+	}},
 	{"recur-nontail", func(d int) string {
 		return fmt.Sprintf("(defun f (n) (if (= n 0) 0 (+ 1 (f (- n 1))))) (f %d)", d)
 	}},
